@@ -48,8 +48,33 @@ func genesisRoundTrip(w *World, ctx sdk.Context, name string) (ok bool, why stri
 	// from the zero time
 	exportCtx := ctx.WithBlockHeader(cmtproto.Header{Height: ctx.BlockHeight()})
 	bz := ex.ExportGenesis(exportCtx, w.App.AppCodec())
+	// a restarted chain imports into an EMPTY store: what the export does not carry is gone. The module's own store is emptied before
+	// the import for the modules whose round trip is the identity on the unchanged tree (gentrip exploration with VERIF_GENTRIP_CLEAN=all)
+	if clean := os.Getenv("VERIF_GENTRIP_CLEAN"); clean == "all" || (clean != "none" && cleanRestartModules[name]) {
+		if sk, ok := w.App.GetKVStoreKeys()[name]; ok {
+			st := ctx.KVStore(sk)
+			var keys [][]byte
+			it := st.Iterator(nil, nil)
+			for ; it.Valid(); it.Next() {
+				keys = append(keys, append([]byte{}, it.Key()...))
+			}
+			it.Close()
+			for _, k := range keys {
+				st.Delete(k)
+			}
+		}
+	}
 	im.InitGenesis(ctx, w.App.AppCodec(), bz)
 	return true, ""
+}
+
+// cleanRestartModules: modules whose export carries everything their store holds (measured: mode gentrip with VERIF_GENTRIP_CLEAN=all
+// reports no lost or changed key for them on the unchanged tree)
+var cleanRestartModules = map[string]bool{
+	"amm": true, "commitment": true, "masterchef": true, "leveragelp": true, "tradeshield": true, "assetprofile": true, "oracle": true,
+	"burner": true, "tokenomics": true, "parameter": true, "estaking": true, "tier": true, "poolaccounted": true,
+	// NOT perpetual: its export leaves out the interest-rate and funding-rate history (keys 0x07 / 0x08), and not stablestake (not in the
+	// histories' list): see DESIGN 0.4 "noted"
 }
 
 // mode gentrip (exploration, not registered): after a history, which modules' round trip is the identity on every store?
